@@ -767,8 +767,16 @@ func run(c *mon.Ctx) {
 					c.Cover("op:gen.ParseReader-refill-boundary")
 					var gp gen.Parser
 					var op oj.Parser
-					n1, e1 := gp.ParseReader(strings.NewReader(doc))
-					v, e2 := op.Parse([]byte(doc))
+					var n1 gen.Node
+					var v any
+					var e1, e2 error
+					if pn := mon.Guard(func() {
+						n1, e1 = gp.ParseReader(strings.NewReader(doc))
+						v, e2 = op.Parse([]byte(doc))
+					}); pn != nil {
+						c.Violation("gen.Parser.ParseReader", "panic", "refill-boundary/"+mon.FaultClass(pn.Msg), map[string]any{"text": mon.B(doc)}, "a node", pn.String())
+						continue
+					}
 					c.Eval(2)
 					if e1 != nil || e2 != nil {
 						c.Violation("gen.Parser.ParseReader", "error-on-valid-document", "refill-boundary", map[string]any{"text": mon.B(doc)}, "no error", fmt.Sprint(e1, e2))
